@@ -173,6 +173,11 @@ impl<'a> AsyncRead for ScriptedReader<'a> {
     fn poll_read(self: Pin<&mut Self>, cx: &mut Context<'_>, buf: &mut ReadBuf<'_>) -> Poll<io::Result<()>> {
         let me = self.get_mut();
         me.reads += 1;
+        if me.reads > me.data.len() + me.script.len() + 64 {
+            // A decoder that keeps reading after end-of-input (or after an error) never returns:
+            // turn the logical-step overrun into a panic that the monitors' guard attributes.
+            panic!("MQV-SPIN: {} transport reads for a {}-byte stream", me.reads, me.data.len());
+        }
         let cap = buf.remaining();
         if me.frame_end != usize::MAX && me.pos + cap > me.frame_end {
             me.max_overask = me.max_overask.max(me.pos + cap - me.frame_end);
